@@ -1,2 +1,123 @@
--- line-protocol model driver for C03 (stub)
-def main : IO Unit := IO.println "stub C03"
+/- Line-protocol model driver for C03 (equality / ordering / hashing / struct layout).
+
+   term  ::= n <hex16> | nil | t | f | s <hex|-> | y <hex|-> | k <hex|-> | T <0|1> <len> term*
+           | S <cap> <0|1> (term term)*cap [term]        -- slot array, then the prototype when the flag is 1
+           | r <typetag> <hex16>
+   val <id> term                 -> "h <hash as int32> t <typetag>"      (ids must be 0,1,2,… in order)
+   row <i>                       -> one char per defined value j: '<' '=' '>' from compare(i,j);
+                                    'L' 'G' if compare≠0 but equals; 'Z' if compare=0 but not equals
+   structof <count> <npairs> (term term)*npairs <proto term|nil>
+                                 -> term of the struct built by begin(count), the puts in order, proto, end
+   find <struct id> <key id>     -> slot index | -1
+-/
+import Driver.Util
+import JanetModel.Value.Struct
+open Driver JanetModel.Value
+
+abbrev V := JVal F64
+
+def hexNat (s : String) : Option Nat :=
+  s.toList.foldl (fun acc c => match acc, hexVal c with
+    | some a, some d => some (a * 16 + d)
+    | _, _ => none) (some 0)
+
+def bytesOf (s : String) : Option (List UInt8) :=
+  if s == "-" then some [] else (bytesOfHex s).map (·.map Nat.toUInt8)
+
+def kindOfTag (t : Nat) : Option RefKind :=
+  [RefKind.fiber, .array, .table, .buffer, .function, .cfunction, .pointer].find? (·.tag == t)
+
+mutual
+partial def parseTerm : List String → Option (V × List String)
+  | "n" :: h :: rest => (hexNat h).map fun b => (.num ⟨b.toUInt64⟩, rest)
+  | "nil" :: rest => some (.nil, rest)
+  | "t" :: rest => some (.bool true, rest)
+  | "f" :: rest => some (.bool false, rest)
+  | "s" :: h :: rest => (bytesOf h).map fun b => (.str b, rest)
+  | "y" :: h :: rest => (bytesOf h).map fun b => (.sym b, rest)
+  | "k" :: h :: rest => (bytesOf h).map fun b => (.kw b, rest)
+  | "r" :: t :: h :: rest => do
+      let k ← kindOfTag (← t.toNat?)
+      let b ← hexNat h
+      pure (.ref k b.toUInt64, rest)
+  | "T" :: br :: len :: rest => do
+      let n ← len.toNat?
+      let (xs, rest) ← parseMany n rest
+      pure (.tuple (br == "1") xs, rest)
+  | "S" :: cap :: pf :: rest => do
+      let n ← cap.toNat?
+      let (xs, rest) ← parseMany (2 * n) rest
+      if pf == "1" then
+        let (p, rest) ← parseTerm rest
+        pure (.struct xs p, rest)
+      else pure (.struct xs .nil, rest)
+  | _ => none
+partial def parseMany : Nat → List String → Option (List V × List String)
+  | 0, rest => some ([], rest)
+  | n + 1, rest => do
+      let (x, rest) ← parseTerm rest
+      let (xs, rest) ← parseMany n rest
+      pure (x :: xs, rest)
+end
+
+def hex16 (n : Nat) : String :=
+  String.ofList ((List.range 16).reverse.map fun i => hexDigit (n / 16 ^ i % 16))
+
+def hexB (bs : List UInt8) : String := if bs.isEmpty then "-" else hexOfBytes (bs.map (·.toNat))
+
+partial def showTerm : V → String
+  | .num n => "n " ++ hex16 n.bits.toNat
+  | .nil => "nil"
+  | .bool true => "t"
+  | .bool false => "f"
+  | .str b => "s " ++ hexB b
+  | .sym b => "y " ++ hexB b
+  | .kw b => "k " ++ hexB b
+  | .ref k b => s!"r {k.tag} " ++ hex16 b.toNat
+  | .tuple br xs => String.intercalate " " (["T", if br then "1" else "0", toString xs.length] ++ xs.map showTerm)
+  | .struct f p =>
+      String.intercalate " " (["S", toString (f.length / 2), if p.isNil then "0" else "1"] ++ f.map showTerm ++ (if p.isNil then [] else [showTerm p]))
+
+def pairChar (a b : V) : Char :=
+  let e := equals a b
+  match jcompare a b with
+  | .lt => if e then 'L' else '<'
+  | .eq => if e then '=' else 'Z'
+  | .gt => if e then 'G' else '>'
+
+def pairsOf : List V → Option (List (V × V))
+  | [] => some []
+  | k :: v :: rest => (pairsOf rest).map ((k, v) :: ·)
+  | _ => none
+
+def step (st : Array V) (toks : List String) : Array V × String :=
+  match toks with
+  | "val" :: id :: rest =>
+    match parseTerm rest with
+    | some (v, []) =>
+      if id.toNat? == some st.size then (st.push v, s!"h {sInt (hash v)} t {v.typeTag}") else (st, "bad-id")
+    | _ => (st, "bad-term")
+  | ["row", i] =>
+    match i.toNat? >>= (st[·]?) with
+    | some a => (st, String.ofList (st.toList.map (pairChar a)))
+    | none => (st, "bad-id")
+  | "structof" :: count :: npairs :: rest =>
+    match count.toNat?, npairs.toNat? with
+    | some c, some n =>
+      match parseMany (2 * n) rest with
+      | some (flat, rest) =>
+        match parseTerm rest, pairsOf flat with
+        | some (p, []), some kvs => (st, showTerm (structOfCount c kvs p))
+        | _, _ => (st, "bad-op")
+      | none => (st, "bad-op")
+    | _, _ => (st, "bad-op")
+  | ["find", s, k] =>
+    match s.toNat? >>= (st[·]?), k.toNat? >>= (st[·]?) with
+    | some (.struct f _), some key =>
+      match pairsOf f with
+      | some slots => (st, match structFind slots key with | some i => toString i | none => "-1")
+      | none => (st, "bad-op")
+    | _, _ => (st, "bad-op")
+  | _ => (st, "bad-op")
+
+def main : IO Unit := runLoop (#[] : Array V) step
